@@ -644,7 +644,7 @@ func (p *prover) matchedMinLen(root ssa.Value, b *ssa.BasicBlock) int64 {
 				continue
 			}
 			f := call.Call.StaticCallee()
-			if f == nil || !isFindSubmatch(origin(f).String()) || lenRoot(call.Call.Args[1]) != root {
+			if f == nil || !(isFindSubmatch(origin(f).String()) || isFindSubmatchIndex(origin(f).String())) || lenRoot(call.Call.Args[1]) != root {
 				continue
 			}
 			// need fact len(call)==0 false at b
@@ -1128,6 +1128,9 @@ func nameOf(v ssa.Value) string {
 
 func (p *prover) prove(s site) (bool, string) {
 	b := s.in.Block()
+	if s.kind == "slice" && p.submatchWindow(s, b) {
+		return true, ""
+	}
 	llo, _ := p.lenBounds(s.X, b)
 	root := lenRoot(s.X)
 	var checkAt func(v ssa.Value, strict bool, b *ssa.BasicBlock, depth int) (bool, string)
@@ -1555,6 +1558,12 @@ func (c *Ctx) submatchShape(v ssa.Value, depth int) (n int64, strict bool, ok bo
 			}
 			return 0, false, false
 		}
+		if isFindSubmatchIndex(origin(f).String()) { // nil or one (start, end) pair per group and for the whole match
+			if re := c.regexpOf(x.Call.Args[0]); re != nil {
+				return 2 * int64(re.MaxCap()+1), true, true
+			}
+			return 0, false, false
+		}
 		if inRepo(f) && f.Signature.Results().Len() == 1 {
 			var rets []ssa.Value
 			for _, r := range Returns(origin(f)) {
@@ -1566,6 +1575,174 @@ func (c *Ctx) submatchShape(v ssa.Value, depth int) (n int64, strict bool, ok bo
 		}
 	}
 	return 0, false, false
+}
+
+// isFindSubmatchIndex: the offset-returning siblings.
+func isFindSubmatchIndex(name string) bool {
+	return name == "(*regexp.Regexp).FindSubmatchIndex" || name == "(*regexp.Regexp).FindStringSubmatchIndex"
+}
+
+// submatchWindow: the slice X[loc[2k]:loc[2k+1]] where loc is the non-nil result of FindSubmatchIndex on (a form of)
+// X itself and group k takes part in every match of the regexp (it does not sit under ?, *, {0,n} or an alternation):
+// the engine's contract puts 0 <= loc[2k] <= loc[2k+1] <= len(X). For a group that may not take part both offsets are
+// −1 and the slice panics: not accepted.
+func (p *prover) submatchWindow(s site, b *ssa.BasicBlock) bool {
+	if s.idx == nil || s.high == nil {
+		return false
+	}
+	// the two offsets are loc[a·i+c] and loc[a·i+c+1] for one i, with a and c even: an offset pair
+	var lowIndex ssa.Value
+	elem := func(v ssa.Value) (ssa.Value, ssa.Value, int64, int64, bool) {
+		ld, ok := v.(*ssa.UnOp)
+		if !ok || ld.Op != token.MUL {
+			return nil, nil, 0, 0, false
+		}
+		ia, ok := ld.X.(*ssa.IndexAddr)
+		if !ok {
+			return nil, nil, 0, 0, false
+		}
+		if lowIndex == nil {
+			lowIndex = ia.Index
+		}
+		base, a, c, ok := linForm(ia.Index, 0)
+		return ia.X, base, a, c, ok
+	}
+	l1, b1, a1, c1, ok1 := elem(s.idx)
+	l2, b2, a2, c2, ok2 := elem(s.high)
+	if !ok1 || !ok2 || l1 != l2 || b1 != b2 || a1 != a2 || a1%2 != 0 || c1%2 != 0 || c2 != c1+1 {
+		return false
+	}
+	glo, ghi := c1/2, c1/2 // the groups the pair can stand for
+	if b1 != nil && a1 != 0 {
+		// the range of the low offset's index itself (the base may be the raw counter of a rotated range loop)
+		r := p.eval(lowIndex, b, 0)
+		if r.ok && r.base == nil && r.lo >= 0 && r.hi < 128 && r.lo%2 == 0 {
+			glo, ghi = r.lo/2, r.hi/2
+			goto groups
+		}
+		r = p.eval(b1, b, 0)
+		if r.ok && r.base != nil { // measured against a length (the index of a range over a table): in numbers
+			l0, l1 := p.lenBounds(r.base, b)
+			if l1 >= inf {
+				return false
+			}
+			r.lo, r.hi, r.base = l0+r.lo, l1+r.hi, nil
+		}
+		if !r.ok || r.base != nil || r.lo < 0 || r.hi >= 64 {
+			return false
+		}
+		glo, ghi = (a1*r.lo+c1)/2, (a1*r.hi+c1)/2
+	}
+groups:
+	lo := 2 * glo
+	call, ok := l1.(*ssa.Call)
+	if !ok {
+		return false
+	}
+	f := call.Call.StaticCallee()
+	if f == nil || !isFindSubmatchIndex(origin(f).String()) || len(call.Call.Args) != 2 {
+		return false
+	}
+	re := p.c.regexpOf(call.Call.Args[0])
+	if re == nil || lenRoot(call.Call.Args[1]) != lenRoot(s.X) {
+		return false
+	}
+	// a match was found on every path to the slice
+	if l, _ := p.lenBounds(l1, b); l < 1 && !p.nonNilFact(l1, b) {
+		return false
+	}
+	_ = lo
+	if glo < 0 || ghi > int64(re.MaxCap()) {
+		return false
+	}
+	for g := glo; g <= ghi; g++ {
+		if !mandatoryGroup(re, int(g)) {
+			return false
+		}
+	}
+	return true
+}
+
+// linForm: v = a·base + c for an SSA value base (nil for a constant), read off +, −, ·, << with constants.
+func linForm(v ssa.Value, depth int) (base ssa.Value, a, c int64, ok bool) {
+	if depth > 6 {
+		return nil, 0, 0, false
+	}
+	if k, isK := constInt(v); isK {
+		return nil, 0, k, true
+	}
+	switch x := v.(type) {
+	case *ssa.Convert:
+		return linForm(x.X, depth+1)
+	case *ssa.BinOp:
+		bx, ax, cx, okx := linForm(x.X, depth+1)
+		by, ay, cy, oky := linForm(x.Y, depth+1)
+		if !okx || !oky {
+			break
+		}
+		switch x.Op {
+		case token.ADD, token.SUB:
+			sign := int64(1)
+			if x.Op == token.SUB {
+				sign = -1
+			}
+			switch {
+			case bx == nil || ax == 0:
+				if sign < 0 && by != nil && ay != 0 {
+					return by, -ay, cx - cy, true
+				}
+				return by, sign * ay, cx + sign*cy, true
+			case by == nil || ay == 0:
+				return bx, ax, cx + sign*cy, true
+			case bx == by:
+				return bx, ax + sign*ay, cx + sign*cy, true
+			}
+		case token.MUL:
+			switch {
+			case bx == nil || ax == 0:
+				return by, ay * cx, cy * cx, true
+			case by == nil || ay == 0:
+				return bx, ax * cy, cx * cy, true
+			}
+		case token.SHL:
+			if (by == nil || ay == 0) && cy >= 0 && cy < 16 {
+				return bx, ax << uint(cy), cx << uint(cy), true
+			}
+		}
+		return nil, 0, 0, false
+	}
+	return v, 1, 0, true
+}
+
+// mandatoryGroup: capture group k lies on every path through re.
+func mandatoryGroup(re *syntax.Regexp, k int) bool {
+	if k == 0 {
+		return true
+	}
+	var walk func(r *syntax.Regexp) bool
+	walk = func(r *syntax.Regexp) bool {
+		switch r.Op {
+		case syntax.OpCapture:
+			if r.Cap == k {
+				return true
+			}
+			return walk(r.Sub[0])
+		case syntax.OpConcat:
+			for _, sub := range r.Sub {
+				if walk(sub) {
+					return true
+				}
+			}
+		case syntax.OpPlus:
+			return walk(r.Sub[0])
+		case syntax.OpRepeat:
+			if r.Min >= 1 {
+				return walk(r.Sub[0])
+			}
+		}
+		return false // alternation, ?, *, {0,n}: the group may be skipped
+	}
+	return walk(re)
 }
 
 // isFindSubmatch: the two sibling forms (bytes / string subject) with the same length contract.
